@@ -45,6 +45,10 @@ class ZarrCollection(SyncedCollection):
 
     _backend = __name__  # type: ignore
 
+    # Mappings need string keys wherever they are nested, so lists (whose
+    # mapping elements become ZarrDicts) must check this as well.
+    _validators = (require_string_key,)
+
     def __init__(self, group=None, name=None, codec=None, *args, **kwargs):
         if not ZARR:
             raise RuntimeError(
